@@ -69,6 +69,14 @@ var configs = map[string]propCfg{
 		Thorough:   tierCfg{BudgetS: 900, Chunk: 96, MaxRuns: 5000000},
 		Assume:     assumeAll, Real: realAll, Stub: stubAll,
 	},
+	"C08": {
+		Level:      "exploration",
+		Rule:       "Seeded sequences of writes, Compact requests (increasing, repeated, decreasing, 0, above current, relative to the committed revision) and List / limited List / ListByStream / Count at revisions around every floor value; every third run has 2-3 clients racing compactions against each other and against reads under seeded schedules; memkv, Badger, TiKV-mock. Floor model = max effective revision of accepted compactions; the stored record is followed through the ground truth.",
+		NonTrivial: "at least one range read named a revision below a floor that had been accepted before the read began.",
+		Quick:      tierCfg{BudgetS: 40, Chunk: 150, MaxRuns: 200000},
+		Thorough:   tierCfg{BudgetS: 900, Chunk: 150, MaxRuns: 5000000},
+		Assume:     assumeAll, Real: realAll, Stub: stubAll,
+	},
 }
 
 // expectedProbes lists the reach probes whose absence is reported as a coverage gap.
@@ -79,5 +87,6 @@ var expectedProbes = map[string][]string{
 	"C05": {"registration-raced-with-write", "start-inside-history", "cache-wrapped", "watch-refused", "subscriber-dropped", "events-delivered"},
 	"C06": {"compared-with-events-applied", "compaction-overlapped-watch"},
 	"C07": {"compaction-deleted-records", "compaction-delete-failed", "skip-after-failure-engaged", "compactor-crashed", "second-compaction", "compare-and-delete-lost-to-concurrent-write"},
+	"C08": {"read-below-accepted-floor", "older-compaction-after-newer"},
 	"C03": {"read-at-historical-revision", "limit-cut-result", "compaction-before-reread"},
 }
